@@ -1050,6 +1050,10 @@ EXTRACTORS["C07"] = EXTRACTORS["C07"] + [GEN_SRC["SrcAvl"]]
 TRANSLATOR_MODULES.append("rs2lean_genpoa")
 GEN_SRC.update({n: gen_src(n) for n in ("SrcPoaAlign", "SrcPoaAdd", "SrcPoaConsensus")})
 EXTRACTORS["C16"] = EXTRACTORS.get("C16", []) + [GEN_SRC[n] for n in ("SrcPoaAlign", "SrcPoaAdd", "SrcPoaConsensus")]
+SOFT_POA_CUSTOM = soft_modules(["RbV.Thm.GenSrcPoaCustom"], "the DP phase of the translated `Poa::custom` is no longer equal to the "
+                               "checked-i32 mirror `cStepC` cell by cell, tie-breaks included (exact equality: soft; decided by the "
+                               "behavioural tie)")
+EXTRACTORS["C16"] = EXTRACTORS["C16"] + [SOFT_POA_CUSTOM]
 
 
 def main():
